@@ -12,6 +12,15 @@ C05.push   the incremental builders of length-limited data (Opt::push_raw_option
            included -- and leave the value as it was when an append fails:
            every failure exit after the first append passes a truncate to the
            length saved before it.
+C05.varlen for enums that are written variant by variant (IpseckeyGateway) the
+           length announced for a variant equals what the composer writes for
+           it: nothing -> 0, an A / AAAA payload -> 4 / 16, a name -> its
+           compose_len.
+C05.mask   ClientSubnet's host-bit mask: for all 256 octet values and all 7
+           partial prefix lengths the guard that reports "host bits were
+           set" holds exactly when the masking store changes the octet (the
+           guard and the mask are two spellings of one condition; evaluated
+           over the finite domain, nothing is run).
 C05.disp   each type's parse_rdata / rtype() use its own RTYPE, RTYPE equals
            the IANA number, RTYPEs are pairwise distinct, the enum dispatchers
            call the same-named method in every arm, unknown types fall back to
@@ -63,6 +72,8 @@ def run(ctx):
         _check_type(ctx, F, adt, types[adt], widths)
     rule_disp(ctx, F, types)
     rule_push(ctx, F)
+    rule_mask(ctx, F)
+    rule_varlen(ctx, F)
     for adt, rb, ok, names in sigs.rdlen_compress_agreement(F):
         ctx.ob("C05.rdlen", adt, "no announced length when names are compressed", ok,
                "%s::rdlen(compress = true) announces a length although compose_rdata compresses %s on a compressing "
@@ -133,6 +144,173 @@ def rule_push(ctx, F):
                "%s can return an error after it has appended part of an item without truncating back to the length it started "
                "from: the value keeps a half-written item (the next push or a later parse of the composed data fails or "
                "panics)" % name, b.where(bad) if bad is not None else b.where())
+
+
+def _eval(t, env):
+    """value of a small integer expression over the bindings in env (keyed by the printed sub-term)"""
+    s = show(deep_strip(t))
+    if s in env:
+        return env[s]
+    t = deep_strip(t)
+    cv = const_value(t)
+    if cv is not None:
+        return cv
+    if t[0] == "cast":
+        return _eval(t[2], env)
+    if t[0] == "bin":
+        a, c = _eval(t[2], env), _eval(t[3], env)
+        if a is None or c is None:
+            return None
+        op = t[1].replace("WithOverflow", "").replace("Unchecked", "")
+        try:
+            return {"Add": a + c, "Sub": a - c, "Mul": a * c, "BitAnd": a & c, "BitOr": a | c, "BitXor": a ^ c,
+                    "Shl": (a << c) if 0 <= c < 64 else None, "Shr": (a >> c) if 0 <= c < 64 else None,
+                    "Rem": a % c if c else None, "Div": a // c if c else None,
+                    "Lt": a < c, "Le": a <= c, "Gt": a > c, "Ge": a >= c, "Eq": a == c, "Ne": a != c}.get(op)
+        except TypeError:
+            return None
+    if t[0] == "call" and t[1] and t[3]:
+        x = _eval(t[3][0], env)
+        if x is None:
+            return None
+        m = re.search(r"<impl u(\d+)>::(trailing_zeros|leading_zeros|count_ones)$", t[1])
+        if m:
+            w = int(m.group(1))
+            if m.group(2) == "trailing_zeros":
+                return w if x == 0 else (x & -x).bit_length() - 1
+            if m.group(2) == "leading_zeros":
+                return w - x.bit_length()
+            return bin(x).count("1")
+    return None
+
+
+def rule_mask(ctx, F):
+    from rulelib import facts_at
+    R = "C05.mask"
+    ctx.floor(R, 1)
+    b = F.one_body(r"^base::opt::subnet::apply_bit_mask$")
+    if not ctx.anchor(R, "subnet::apply_bit_mask", b):
+        return
+    # the masking store: buf[p] = buf[p] & (0xff << (8 - bits))
+    site = None
+    for bi in sorted(b.reachable_blocks()):
+        for st in b.blocks[bi]["s"]:
+            if st[0] == "=" and len(st[1]) >= 2 and st[2][0] == "bin" and st[2][1] == "BitAnd":
+                site = (bi, st)
+    if not ctx.anchor(R, "the masking store in apply_bit_mask", site is not None, b.where()):
+        return
+    bi, st = site
+    old = b.term_of_operand(st[2][2])
+    new = b.term_of_rvalue(st[2])
+    xkey = show(deep_strip(old))
+    guards = [(tt, v) for tt, v, _ in facts_at(b, bi, F) if isinstance(v, bool) and "trailing_zeros" in show(deep_strip(tt)) or
+              (isinstance(v, bool) and xkey in show(deep_strip(tt)))]
+    rems = sorted({show(s) for tt, _ in guards for s in walk(deep_strip(tt)) if s[0] == "bin" and s[1] == "Rem"}, key=len)
+    if not ctx.anchor(R, "guard of the masking store over the octet and the partial prefix length", bool(guards) and bool(rems), b.where(bi)):
+        return
+    bkey = rems[0]
+    bad = []
+    undecided = False
+    for bits in range(1, 8):
+        for x in range(256):
+            env = {xkey: x, bkey: bits}
+            g = True
+            for tt, v in guards:
+                val = _eval(tt, env)
+                if val is None:
+                    undecided = True
+                    continue
+                g = g and (bool(val) == v)
+            nv = _eval(new, env)
+            if nv is None:
+                undecided = True
+                continue
+            changes = (nv & 0xFF) != x
+            if g != changes:
+                bad.append((x, bits, g, changes))
+    if undecided and not bad:
+        ctx.undecided_item(R, "apply_bit_mask", "guard or mask expression not evaluable")
+        return
+    ctx.ob(R, b, "the host-bits guard holds exactly when the mask changes the octet", not bad,
+           "apply_bit_mask: for octet 0x%02x and a prefix ending %d bits into it the guard says %s but masking %s the octet: "
+           "ClientSubnet::parse rejects a valid prefix (or accepts set host bits)"
+           % ((bad[0][0], bad[0][1], "modified" if bad[0][2] else "unmodified", "changes" if bad[0][3] else "does not change") if bad else (0, 0, "", "")),
+           b.where(bi), detail="1792 (octet, bits) pairs evaluated, %d disagree" % len(bad))
+
+
+FIXED_PAYLOAD = {"rdata::rfc1035::a::A": 4, "rdata::aaaa::Aaaa": 16}
+
+
+def _per_variant(b, F, classify):
+    """{variant: classify(blocks reachable from the variant's arm before the arms join)} for a `match self`"""
+    from mirlib import BranchFacts
+    bf = BranchFacts(b, F)
+    out = {}
+    for sw in sorted(b.reachable_blocks()):
+        if b.blocks[sw]["t"]["k"] != "switch":
+            continue
+        ef = bf.edge_facts(sw)
+        arms = {lab: v[1][1] for lab, v in ef.items() if isinstance(v[1], tuple) and v[1][0] == "variant" and deep_strip(v[0]) == ("arg", 1)}
+        if len(arms) < 2:
+            continue
+        tgts = {lab: b.edge_target(sw, lab) for lab in arms}
+        reach = {lab: b.reach_from(tgts[lab]) for lab in arms}
+        for lab, var in arms.items():
+            others = set().union(*[reach[l2] for l2 in arms if l2 != lab])
+            out[var] = classify(sorted(reach[lab] - others))
+        break
+    return out
+
+
+def rule_varlen(ctx, F):
+    R = "C05.varlen"
+    ctx.floor(R, 4)
+    for adt in ("rdata::ipseckey::IpseckeyGateway",):
+        lb = F.one_body("^" + re.escape(adt) + r"::<N>::rdlen$")
+        cb = F.one_body("^" + re.escape(adt) + r"::<N>::compose_rdata(::<.*>)?$") or \
+            next((x for q, x in F.bodies.items() if q.startswith("<" + adt) and q.endswith("::compose_rdata")), None)
+        if cb is None:
+            cands = [x for q, x in F.bodies.items() if adt.split("::")[-1] in q and re.search(r"::compose_rdata(::<.*>)?$", q) and "Ipseckey<" not in q]
+            cb = cands[0] if cands else None
+        if not ctx.anchor(R, "%s::rdlen and ::compose_rdata" % adt, lb is not None and cb is not None):
+            continue
+
+        def len_of(blocks):
+            for bb in blocks:
+                for st in lb.blocks[bb]["s"]:
+                    if st[0] == "=" and st[1] == [0] and st[2][0] == "use" and st[2][1][0] == "k" and isinstance(st[2][1][2], int):
+                        return st[2][1][2]
+                tt = lb.blocks[bb]["t"]
+                if tt["k"] == "call" and (tt["fn"] or "").endswith("::compose_len"):
+                    return "compose_len"
+            return None
+
+        def written(blocks):
+            out = []
+            for bb in blocks:
+                tt = cb.blocks[bb]["t"]
+                if tt["k"] != "call" or not tt["fn"]:
+                    continue
+                m = None
+                for nm in (tt.get("res"), tt.get("full"), tt["fn"]):
+                    m = m or (re.match(r"^<(.+?) as base::rdata::ComposeRecordData>::compose_rdata", nm) if nm else None)
+                if m:
+                    out.append(FIXED_PAYLOAD.get(re.sub(r"<.*$", "", m.group(1)), "?" + m.group(1)))
+                elif re.search(r"ToName>?::compose(::<.*>)?$|ToLabelIter>?::compose(::<.*>)?$", tt.get("full") or tt["fn"]):
+                    out.append("compose_len")
+                elif tt["fn"].endswith("::append_slice"):
+                    out.append("?append_slice")
+            return out
+        lens = _per_variant(lb, F, len_of)
+        outs = _per_variant(cb, F, written)
+        if not ctx.anchor(R, "per-variant arms of %s" % adt, len(lens) >= 3 and set(lens) == set(outs), lb.where()):
+            continue
+        for var in sorted(lens):
+            w = outs[var]
+            want = 0 if not w else (w[0] if len(w) == 1 else None)
+            ctx.ob(R, lb, "rdlen of the %s variant equals what is written" % var, want is not None and lens[var] == want,
+                   "%s::rdlen announces %s for the %s variant but compose_rdata writes %s: the RDLENGTH of the record is wrong and "
+                   "the next record in the message is misread" % (adt.split("::")[-1], lens[var], var, w or "nothing"))
 
 
 def _width_table(F):
